@@ -22,6 +22,8 @@ use crate::ledger::{cw20_key, native_key, Delta, Ledger};
 use crate::ops::*;
 use crate::world::*;
 
+static LAST_PANIC_GLOBAL: std::sync::Mutex<String> = std::sync::Mutex::new(String::new());
+
 thread_local! {
     static LAST_PANIC: RefCell<String> = RefCell::new(String::new());
 }
@@ -40,7 +42,16 @@ pub fn install_panic_hook() {
             .map(|l| format!("{}:{}", l.file(), l.line()))
             .unwrap_or_default();
         LAST_PANIC.with(|p| *p.borrow_mut() = format!("{} @ {}", msg, loc));
+        if loc.contains("/verif/") || loc.starts_with("src/") {
+            if let Ok(mut g) = LAST_PANIC_GLOBAL.lock() {
+                *g = format!("{} @ {}", msg, loc);
+            }
+        }
     }));
+}
+
+pub fn last_panic() -> String {
+    LAST_PANIC_GLOBAL.lock().map(|g| g.clone()).unwrap_or_default()
 }
 
 fn take_panic() -> String {
